@@ -146,7 +146,7 @@ PROPS["C06"]["real"] = PROPS["C06"]["real"] + ["cmd/ow-sim (hot-start phase)"]
 
 # C07 with "-outputs model=file": results streamed to child writer processes (simulated processes
 # and pipes, simrt/proc.go)
-PROPS["C07"]["rule"] += "; additional phases (owsimext, normal and -race binary): the same graphs with -outputs model=file for a seeded subset of the models: parent, stdin copier and every 'ow-sim -writer' child run as simulated processes joined by pipes with seeded capacity (1, 7, 4096, 65536 bytes), short reads and reader delays; outputs and final inputs must appear in the model's own file, every child must have finished before ow-sim returns, nothing else may be written"
+PROPS["C07"]["rule"] += "; additional phases (owsimext, normal and -race binary): the same graphs with -outputs model=file for a seeded subset of the models: parent, stdin copier and every 'ow-sim -writer' child run as simulated processes joined by pipes with seeded capacity (61, 509, 4096, 65536 bytes), short reads and reader delays; outputs and final inputs must appear in the model's own file, every child must have finished before ow-sim returns, nothing else may be written"
 PROPS["C07"]["assumptions"] = PROPS["C07"]["assumptions"] + ["owsimext: the child shares the io package's lock table with the parent (one address space); the pipe model follows os/exec (copier goroutine + kernel pipe): a write to the io.Pipe returns when the copier has taken the data, the kernel pipe blocks when full, the parent's exit closes its pipe ends"]
 PROPS["C07"]["also"] = [{"engine": "owsimext", "race": False, "runs_quick": 500, "runs_thorough": 60000},
                         {"engine": "owsimext", "race": True, "runs_quick": 120, "runs_thorough": 10000}]
